@@ -82,7 +82,10 @@ META = {
                    'derived_disabled_after_enable', 'obs_param_fitted',
                    'update_after_direct_write', 'misuse_fired',
                    'real_model_run', 'settings_from_input_file',
-                   'nonpositive_param_fitted'],
+                   'nonpositive_param_fitted',
+                   'setting_changed_by_second_optimizer',
+                   'same_vector_written_again', 'module_level_compile',
+                   'model_rebuilt'],
         'real': ['taurex.optimizer.Optimizer (all mutators and views)',
                  'ParameterParser.read / generate_fitting_parameters / '
                  'setup_optimizer, create_prior (prior text form)',
@@ -110,12 +113,18 @@ META = {
                 'receiver), each with its own real model/optimizer, running '
                 'generate_profiles and compute_derived_trace on a generated '
                 'posterior (in a share of runs a second solution with another '
-                'posterior is post-processed by the same objects); non-trivial = R >= 2; distinct = distinct (R, '
+                'posterior is post-processed by the same objects; a share of '
+                'runs drives the streaming accumulator directly: any '
+                'assignment of samples to ranks, pooled result asked at '
+                'several checkpoints of the same accumulators, values through '
+                'one re-filled buffer, 2-D values in C or Fortran order, a NaN '
+                'component, a single process without mpi4py); non-trivial = R >= 2; distinct = distinct (R, '
                 'per-rank sample-count vector, N, arrival order of ranks at '
                 'every collective)',
         'probes': ['rank_with_0_samples', 'rank_with_1_sample', 'tied_weights',
                    'zero_weights', 'fewer_than_2_processed',
-                   'second_solution_same_objects'],
+                   'second_solution_same_objects', 'accumulator_history',
+                   'pooled_result_asked_again', 'tied_derived_values'],
         'real': ['Optimizer.generate_profiles / sample_parameters / '
                  'compute_derived_trace', 'SimpleForwardModel.compute_error',
                  'OnlineVariance (update, parallelVariance, combine_variance)',
@@ -145,6 +154,11 @@ META = {
             'subsets whose weights are all < 1e-280 are compared for NaN '
             'pattern only (sub-normal round-off)',
             'posterior samples lie in the valid region of the model',
+            'weights reach the accumulator as Optimizer.sample_parameters '
+            'hands them over (+1e-300, never exactly zero)',
+            'where derived values tie between samples of different weight the '
+            'quantile rule depends on the order of the tied samples: the '
+            'oracle is then the same code on one rank',
         ],
     },
     'C06': {
@@ -166,7 +180,8 @@ META = {
                 'run-length pattern of valid/invalid/fault callbacks)',
         'probes': ['valid_right_after_invalid', 'repeated_point',
                    'mixed_space_prior', 'obs_param_fitted', 'exact_fit_run',
-                   'refit_session'],
+                   'refit_session', 'observation_replaced', 'model_replaced',
+                   'factor_boundary_between_fits', 'cube_face_exactly'],
         'real': ['NestleOptimizer/MultiNestOptimizer/PolyChordOptimizer '
                  'compute_fit closures', 'Optimizer.compile_params / '
                  'update_model / chisq_trans', 'taurex.core.priors',
@@ -212,7 +227,9 @@ META = {
                 'mode sizes, weight families, R, fitted and derived names, '
                 'sigma_fraction)',
         'probes': ['unequal_modes', 'multi_mode', 'tied_weights',
-                   'real_nestle_run', 'second_fit_same_optimizer'],
+                   'real_nestle_run', 'second_fit_same_optimizer',
+                   'derived_trace_with_nan',
+                   'observation_replaced_between_fits'],
         'real': ['Optimizer.fit / generate_solution / generate_profiles / '
                  'compute_derived_trace', 'store_nestle_output, '
                  'store_nest_solutions, store_polychord_solutions, '
@@ -247,7 +264,8 @@ META = {
                 'add_opacity, list loads, listings of available molecules / '
                 'k-tables, CIA and k-table requests) interleaved with '
                 'storage events (file replaced / removed / added, listing '
-                'order and format-class order permuted) over a per-run scratch '
+                'order and format-class order permuted, a container cut short as '
+                'by a torn write) over a per-run scratch '
                 'store holding the same physical tables in every container '
                 'format (Exo-Transmit wavelength blocks ascending, descending '
                 'or shuffled; HDF5 molecule name scalar or array, with or '
@@ -258,7 +276,8 @@ META = {
         'probes': ['served_again', 'duplicate_containers',
                    'cleared_while_populated', 'replaced_after_served',
                    'removed_after_served', 'mode_discriminating_probe',
-                   'missing_molecule_requested'],
+                   'missing_molecule_requested', 'added_object_other_mode',
+                   'load_failed_beside_corrupt_file'],
         'real': ['PickleOpacity, HDF5Opacity, ExoTransmitOpacity, '
                  'PickleKTable, HDF5KTable, PickleCIA, HitranCIA',
                  'OpacityCache, KTableCache, CIACache, GlobalCache',
@@ -280,6 +299,12 @@ META = {
             'k-table interpolation mode is checked for loads after an explicit '
             'KTableCache.clear_cache()',
             'NEMESIS k-tables and RADIS are not in the statement',
+            'beside a cut-short container a request may fail (discovery opens '
+            'every file); whatever is served must still be the right table '
+            'from the configured path, and load_opacity(opacity_path=...) '
+            'must leave the configured path as it was',
+            'a node probe allows the round-off of the largest neighbouring '
+            'table value (a + (b-a)*1 loses b when |a| >> |b|)',
         ],
     },
     'C16': {
@@ -298,7 +323,9 @@ META = {
                 'depth), number of phases, R, spectrum ops, contributions, '
                 'model family)',
         'probes': ['append_phase', 'reload_run', 'solution_store_run',
-                   'same_length_other_spacing', 'stored_again_refused'],
+                   'same_length_other_spacing', 'stored_again_refused',
+                   'parameter_changed_before_write',
+                   'written_after_later_evaluations'],
         'real': ['HDF5Output / HDF5OutputGroup', 'Output.store_dictionary, '
                  'recursively_save_dict_contents_to_output, store_thing',
                  'Binner/FluxBinner/SimpleBinner/NativeBinner '
@@ -338,7 +365,8 @@ META = {
                 'or >= 2 species; distinct = distinct (contribution set, add '
                 'order, set of op-kind bigrams)',
         'probes': ['three_or_more_components', 'evaluate_while_invalid',
-                   'parts_on_sub_grid'],
+                   'parts_on_sub_grid', 'source_added_after_build',
+                   'interpolation_mode_changed_under_model'],
         'real': ['TransmissionModel (both path methods), SimpleForwardModel '
                  'model/model_contrib/model_full_contrib/build',
                  'AbsorptionContribution, CIAContribution, RayleighContribution, '
@@ -355,8 +383,13 @@ META = {
             '[1e-5, 20], tolerance 2e-4',
             'a factor common to all components is invisible to these '
             'relations (C01 ground, not applicable)',
-            'restoration of the contribution list when an exception escapes '
-            'inside the swap window is not demanded (probe only)',
+            'nothing is demanded at the moment an exception escapes inside the '
+            'swap window, but the next valid evaluation on the same object '
+            'must be right again (the harness repairs nothing)',
+            'after a source was added to a built model the long-lived list is '
+            'in another order than a fresh model\'s: comparisons with fresh '
+            'models are then cut-off aware (exp(-10) in saturated layers, '
+            '1e-4 on the spectrum)',
         ],
     },
 }
